@@ -1,5 +1,92 @@
 import Spq.Drv.Util
-/- driver family stub (filled in by the owner of this family) -/
+import Spq.Reim4
+/-
+  driver family `r4` (block layouts and complex-vector kernels, binary64 as 64-bit patterns):
+
+    r4 <op> <variant> <params…> <doff> | dst_0 … | src/u/a_0 … [| v/b_0 …]
+    answer: the whole destination buffer after the call (or "diverge")
+
+  The C function receives `dst + doff` (the first `doff` cells are a canary zone in front of the
+  pointer, which no kernel can address: the model runs on the rest of the buffer).
+
+    extract   ref|avx  m blk doff              | dst | src
+    extractc  ref|avx  m nrows blk doff        | dst | src
+    extractsl ref|avx  m sl nrows blk doff     | dst | src
+    save      ref|avx  m blk doff              | dst | src
+    fromcplx  ref|fma|api  m doff              | dst | src     (api = the dispatching entry point)
+    tocplx    ref|fma|api  m doff              | dst | src
+    add|mul|addmul ref doff                    | dst | u | v
+    mat1col|mat2cols ref|avx2 nrows doff       | dst | u | v
+    conv1|conv2 ref k sizea sizeb doff         | dst | a | b
+    conv      ref dsize doffset sizea sizeb doff | dst | a | b
+    r4mul|r4addmul|remul|readdmul ref|fma m doff | r | a | b
+    cxmul     ref|fma m doff                   | r | a | b
+    cxaddmul  ref|fma|sse|avx512 m doff        | r | a | b
+-/
 namespace Spq.Drv
-def handleR4 (_args : List String) : Option String := none
+open Spq Spq.Reim4
+
+private def r4run (op variant : String) (ps : Array Nat) (dst s1 s2 : Array Nat) : Option (Option (Array Nat)) :=
+  let ar := F64.arith
+  let p (i : Nat) : Nat := ps.getD i 0
+  match op, variant with
+  | "extract", "ref" => some (some (extract1blkFromReimRef 0 (p 0) (p 1) dst s1))
+  | "extract", "avx" => some (some (extract1blkFromReimAvx 0 (p 0) (p 1) dst s1))
+  | "extractc", "ref" => some (some (extract1blkFromContiguousReimRef 0 (p 0) (p 1) (p 2) dst s1))
+  | "extractc", "avx" => some (some (extract1blkFromContiguousReimAvx 0 (p 0) (p 1) (p 2) dst s1))
+  | "extractsl", "ref" => some (some (extract1blkFromContiguousReimSlRef 0 (p 0) (p 1) (p 2) (p 3) dst s1))
+  | "extractsl", "avx" => some (some (extract1blkFromContiguousReimSlAvx 0 (p 0) (p 1) (p 2) (p 3) dst s1))
+  | "save", "ref" => some (some (save1blkToReimRef 0 (p 0) (p 1) dst s1))
+  | "save", "avx" => some (some (save1blkToReimAvx 0 (p 0) (p 1) dst s1))
+  | "fromcplx", "ref" => some (some (fromCplxRef 0 (p 0) dst s1))
+  | "fromcplx", "fma" => some (fromCplxFma 0 (p 0) dst s1)
+  | "fromcplx", "api" => some (some (fromCplxRef 0 (p 0) dst s1))   -- dispatch: ref or fma, the same data movement
+  | "tocplx", "api" => some (some (toCplxRef 0 (p 0) dst s1))
+  | "tocplx", "ref" => some (some (toCplxRef 0 (p 0) dst s1))
+  | "tocplx", "fma" => some (toCplxFma 0 (p 0) dst s1)
+  | "add", "ref" => some (some (Reim4.add ar dst s1 s2))
+  | "mul", "ref" => some (some (Reim4.mul ar dst s1 s2))
+  | "addmul", "ref" => some (some (Reim4.addMul ar dst s1 s2))
+  | "mat1col", "ref" => some (some (vecMat1colProductRef ar (p 0) dst s1 s2))
+  | "mat1col", "avx2" => some (some (vecMat1colProductAvx2 ar (p 0) dst s1 s2))
+  | "mat2cols", "ref" => some (some (vecMat2colsProductRef ar (p 0) dst s1 s2))
+  | "mat2cols", "avx2" => some (some (vecMat2colsProductAvx2 ar (p 0) dst s1 s2))
+  | "conv1", "ref" => some (some (convolution1coeffRef ar (p 0) dst s1 (p 1) s2 (p 2)))
+  | "conv2", "ref" => some (some (convolution2coeffRef ar (p 0) dst s1 (p 1) s2 (p 2)))
+  | "conv", "ref" => some (some (convolutionRef ar dst (p 0) (p 1) s1 (p 2) s2 (p 3)))
+  | "r4mul", "ref" => some (some (reim4FftvecMulRef ar (p 0) dst s1 s2))
+  | "r4mul", "fma" => some (reim4FftvecMulFma ar (p 0) dst s1 s2)
+  | "r4addmul", "ref" => some (some (reim4FftvecAddmulRef ar (p 0) dst s1 s2))
+  | "r4addmul", "fma" => some (reim4FftvecAddmulFma ar (p 0) dst s1 s2)
+  | "remul", "ref" => some (some (reimFftvecMulRef ar (p 0) dst s1 s2))
+  | "remul", "fma" => some (reimFftvecMulFma ar (p 0) dst s1 s2)
+  | "readdmul", "ref" => some (some (reimFftvecAddmulRef ar (p 0) dst s1 s2))
+  | "readdmul", "fma" => some (reimFftvecAddmulFma ar (p 0) dst s1 s2)
+  | "cxmul", "ref" => some (some (cplxFftvecMulRef ar (p 0) dst s1 s2))
+  | "cxmul", "fma" => some (some (cplxFftvecMulFma ar (p 0) dst s1 s2))
+  | "cxaddmul", "ref" => some (some (cplxFftvecAddmulRef ar (p 0) dst s1 s2))
+  | "cxaddmul", "fma" => some (some (cplxFftvecAddmulFma ar (p 0) dst s1 s2))
+  | "cxaddmul", "sse" => some (some (cplxFftvecAddmulSse ar (p 0) dst s1 s2))
+  | "cxaddmul", "avx512" => some (some (cplxFftvecAddmulAvx512 ar (p 0) dst s1 s2))
+  | _, _ => none
+
+def handleR4 (args : List String) : Option String :=
+  let (hd, rest) := splitBar args
+  let (b0, rest) := splitBar rest
+  let (b1, b2) := splitBar rest
+  match hd with
+  | op :: variant :: params =>
+    let ps := nats params
+    if ps.size == 0 then none else
+    let doff := ps.back!
+    let ps := ps.pop
+    let buf := nats b0
+    let pre := buf.extract 0 doff
+    let dst := buf.extract doff buf.size
+    match r4run op variant ps dst (nats b1) (nats b2) with
+    | none => none
+    | some none => some "diverge"
+    | some (some d) => some (joinNats (pre ++ d))
+  | _ => none
+
 end Spq.Drv
